@@ -757,7 +757,12 @@ func ruleIfLayout(w *World, r *Report) {
 					seen[v] = true
 					for _, ref := range referrers(v) {
 						switch x := ref.(type) {
-						case *ssa.Return:
+						case *ssa.DebugRef:
+							continue
+						case *ssa.IndexAddr:
+							if v == ssa.Value(al) {
+								continue // the element stores of the literal itself
+							}
 							return true
 						case *ssa.Slice:
 							if reaches(x) {
@@ -767,11 +772,9 @@ func ruleIfLayout(w *World, r *Report) {
 							if reaches(x) {
 								return true
 							}
-						case *ssa.Store:
-							// a named result / captured variable that is returned
-							if x.Val == v {
-								return true
-							}
+						default:
+							// returned, stored into the result variable, ranged over, measured, passed on: the selection is used
+							return true
 						}
 					}
 					return false
